@@ -24,7 +24,7 @@ func init() {
 	register(&propDef{
 		ID: "C18",
 		Meta: propMeta{
-			Explanation: "Decides structural necessary conditions of CFB validity in lib/comdoc, lib/redblack and the MSI digesters (nothing is executed): (R18a) the three walkers hashMsiDir, prehashMsiDir and msiToTarDir sort the ListDir result with sortMsiFiles before iterating, recurse into storages, and put the storage UID after the children; the direct digesters and DigestMsiTar skip the same two stream names, which are the names InsertMSISignature writes; (R18b) layout: Header encodes to 512 bytes and RawDirEnt to 128, every `SectorSize / K` uses K=128 for directory entries and K=4 for sector ids, the byte ranges prehashMsiDirent cuts out of an encoded entry are exactly the spans of StreamSize, UserFlags and CreateTime+ModifyTime, all binary I/O of the package is little-endian, and Close/writeShortSAT/writeDirStream/writeMSAT store every header count and chain head from the table they just wrote; (R18c) chains: every chain builder stores the end-of-chain marker after its loop on every success path (the empty chain excepted), no table is indexed by the end-of-chain sentinel on the zero-iteration path, every index of a sector table by a sector id on the writer side is preceded by a comparison of that id (ids produced by the allocator excepted), and the chain-following loops of the package are bounded (shared with C11 R11d); (R18d) red-black rebuild: a node can become red without an existing red node (new nodes are inserted red), Insert blackens the root, rebuildTree stores colour, both children (-1 for none) and the storage root, and the ordering function compares equal-length names through an upper-casing function as MS-CFB 2.6.4 requires; (R18e) the mini-stream cutoff is the same predicate `size < MinStdStreamSize` at every site and selects the short table on its true side; (R18f) lib/comdoc keeps no pointer to an element of a slice it grows with append (Files, SAT, SSAT, MSAT) in a struct field (zero instances today, positive control testdata/ctl/elemptr); (R18g) Close reads the end of the last used sector off the allocation table only after every step that can still allocate a sector, so a table sector placed last is not cut off; R18a also requires DigestMsiTar to read every tar member through the tar reader itself, without a length limit. (R18h) a single sector taken from makeFreeSectors gets its allocation-table entry stored on every path to a success return; (R18i) in DigestMsiTar the stream copy into the digest is not reachable from the test for the metadata member without that member having been read on its own (or the iteration having ended). (R18k) in ComDoc.Close no successful return is reachable from the point where a used entry of the sector table was found without passing the Truncate call (which pads a partly written last sector as well as cutting a freed tail), and no test that can send Close round the Truncate call depends on a Stat / Size / Seek result; (R18l) hashMsiDir and msiToTarDir reach no successful return without the call that is given the storage's UID.",
+			Explanation: "Decides structural necessary conditions of CFB validity in lib/comdoc, lib/redblack and the MSI digesters (nothing is executed): (R18a) the three walkers hashMsiDir, prehashMsiDir and msiToTarDir sort the ListDir result with sortMsiFiles before iterating, recurse into storages, and put the storage UID after the children; the direct digesters and DigestMsiTar skip the same two stream names, which are the names InsertMSISignature writes; (R18b) layout: Header encodes to 512 bytes and RawDirEnt to 128, every `SectorSize / K` uses K=128 for directory entries and K=4 for sector ids, the byte ranges prehashMsiDirent cuts out of an encoded entry are exactly the spans of StreamSize, UserFlags and CreateTime+ModifyTime, all binary I/O of the package is little-endian, and Close/writeShortSAT/writeDirStream/writeMSAT store every header count and chain head from the table they just wrote; (R18c) chains: every chain builder stores the end-of-chain marker after its loop on every success path (the empty chain excepted), no table is indexed by the end-of-chain sentinel on the zero-iteration path, every index of a sector table by a sector id on the writer side is preceded by a comparison of that id (ids produced by the allocator excepted), and the chain-following loops of the package are bounded (shared with C11 R11d); (R18d) red-black rebuild: a node can become red without an existing red node (new nodes are inserted red), Insert blackens the root, rebuildTree stores colour, both children (-1 for none) and the storage root, and the ordering function compares equal-length names through an upper-casing function as MS-CFB 2.6.4 requires; (R18e) the mini-stream cutoff is the same predicate `size < MinStdStreamSize` at every site and selects the short table on its true side; (R18f) lib/comdoc keeps no pointer to an element of a slice it grows with append (Files, SAT, SSAT, MSAT) in a struct field (zero instances today, positive control testdata/ctl/elemptr); (R18g) Close reads the end of the last used sector off the allocation table only after every step that can still allocate a sector, so a table sector placed last is not cut off; R18a also requires DigestMsiTar to read every tar member through the tar reader itself, without a length limit. (R18h) a single sector taken from makeFreeSectors gets its allocation-table entry stored on every path to a success return; (R18i) in DigestMsiTar the stream copy into the digest is not reachable from the test for the metadata member without that member having been read on its own (or the iteration having ended). (R18m) every quotient lib/comdoc takes of the number of master-table entries divides by SectorSize/4 - 1 (the last entry of a master-table sector is the link); (R18k) in ComDoc.Close no successful return is reachable from the point where a used entry of the sector table was found without passing the Truncate call (which pads a partly written last sector as well as cutting a freed tail), and no test that can send Close round the Truncate call depends on a Stat / Size / Seek result; (R18l) hashMsiDir and msiToTarDir reach no successful return without the call that is given the storage's UID.",
 			NotDecided:  "validity of a concrete output file: chains in bounds, acyclic and mutually disjoint, allocation tables and header counts agreeing with the file length, the directory tree being correctly ordered for the actual names (only the comparator's shape is checked), DIFAT growth arithmetic, equality of the tar-stream digest and the direct digest on a concrete MSI (only the walkers' agreement is checked).",
 			Assumptions: []string{"encoding/binary encodes fixed-size structs field by field without padding", "MS-CFB 2.6.4 (name ordering) and 2.6.1 (entry layout) as transcribed in the frozen tables"},
 		},
